@@ -704,3 +704,178 @@ Proof.
   unfold spec_peak_heights, spec_peak_node_indices. rewrite F. cbn [map pt_height]. unfold pt_root at 2.
   cbn [pt_height pt_offset]. rewrite !map_map. reflexivity.
 Qed.
+
+(* ================================================================== get_peak_heights *)
+Fixpoint heights_from (k : nat) (m : Z) : list Z :=
+  match k with
+  | O => []
+  | S k' => if tleafs k' <=? m then Z.of_nat k' :: heights_from k' (m - tleafs k') else heights_from k' m
+  end.
+
+Lemma heights_from_forest k : forall m o l,
+  map (fun t => Z.of_nat (pt_height t)) (forest_from k m o l) = heights_from k m.
+Proof.
+  induction k as [|k IH]; intros m o l; [reflexivity|].
+  cbn [forest_from heights_from]. destruct (tleafs k <=? m); [cbn [map pt_height]; f_equal|]; apply IH.
+Qed.
+
+Lemma heights_step (b : nat) n : 0 <= n ->
+  heights_from (S b) (n mod 2 ^ Z.of_nat (S b)) =
+  if Z.testbit n (Z.of_nat b) then Z.of_nat b :: heights_from b (n mod 2 ^ Z.of_nat b)
+  else heights_from b (n mod 2 ^ Z.of_nat b).
+Proof.
+  intros Hn. replace (Z.of_nat (S b)) with (Z.of_nat b + 1) by lia. cbn [heights_from]. rewrite mod_pow2_succ by lia. rewrite tleafs_pow.
+  pose proof (pow2_pos (Z.of_nat b) ltac:(lia)) as Hp.
+  pose proof (Z.mod_pos_bound n (2 ^ Z.of_nat b) Hp) as Hm.
+  destruct (Z.testbit n (Z.of_nat b)).
+  - destruct (Z.leb_spec (2 ^ Z.of_nat b) (n mod 2 ^ Z.of_nat b + 2 ^ Z.of_nat b)); [|lia].
+    f_equal. f_equal. lia.
+  - rewrite Z.add_0_r. destruct (Z.leb_spec (2 ^ Z.of_nat b) (n mod 2 ^ Z.of_nat b)); [lia|reflexivity].
+Qed.
+
+Lemma peak_heights_loop_spec (nbn : nat) n : (nbn <= 63)%nat -> 0 <= n ->
+  forall (d b : nat) fuel, (d + b = S nbn)%nat -> (d < fuel)%nat ->
+  peak_heights_loop fuel (Z.of_nat b) (Z.of_nat nbn) n (heights_from b (n mod 2 ^ Z.of_nat b)) =
+  Some (heights_from (S nbn) (n mod 2 ^ (Z.of_nat nbn + 1))).
+Proof.
+  intros Hnb Hn. induction d as [|d IH]; intros b fuel Hd Hf.
+  - destruct fuel as [|f]; [lia|]. cbn [peak_heights_loop].
+    destruct (Z.ltb_spec (Z.of_nat nbn) (Z.of_nat b)); [|lia].
+    replace b with (S nbn) by lia. do 3 f_equal. lia.
+  - destruct fuel as [|f]; [lia|]. cbn [peak_heights_loop].
+    destruct (Z.ltb_spec (Z.of_nat nbn) (Z.of_nat b)); [lia|].
+    rewrite shift_ok_64, wshl64_1 by lia. rewrite land_pow2_testbit by lia.
+    pose proof (pow2_pos (Z.of_nat b) ltac:(lia)) as Hp.
+    replace (Z.of_nat b + 1) with (Z.of_nat (S b)) by lia.
+    specialize (IH (S b) f ltac:(lia) ltac:(lia)).
+    rewrite heights_step in IH by lia.
+    destruct (Z.testbit n (Z.of_nat b)).
+    + destruct (Z.eqb_spec (2 ^ Z.of_nat b) 0); [lia|]. cbn [negb]. exact IH.
+    + cbn [Z.eqb negb]. exact IH.
+Qed.
+
+Theorem peak_heights_correct n : 0 <= n < 2 ^ 64 -> mm_get_peak_heights n = Some (spec_peak_heights n).
+Proof.
+  intros Hn. unfold mm_get_peak_heights, spec_peak_heights, forest.
+  destruct (Z.eqb_spec n 0) as [->|Hn0]; [rewrite forest_from_zero; reflexivity|].
+  pose proof (Z.log2_spec n ltac:(lia)) as Hl. pose proof (Z.log2_nonneg n) as Hlg0.
+  assert (Hl64 : Z.log2 n < 64) by (apply Z.log2_lt_pow2; lia).
+  set (nbn := Z.to_nat (Z.log2 n)).
+  assert (Enb : Z.of_nat nbn = Z.log2 n) by (unfold nbn; lia).
+  unfold ilog2. rewrite <- Enb.
+  pose proof (peak_heights_loop_spec nbn n ltac:(lia) ltac:(lia) (S nbn) 0 66 ltac:(lia) ltac:(lia)) as L.
+  change (Z.of_nat 0) with 0 in L. change (heights_from 0 (n mod 2 ^ 0)) with (@nil Z) in L.
+  rewrite L. f_equal.
+  change (Z.succ (Z.log2 n)) with (Z.log2 n + 1) in Hl. rewrite <- Enb in Hl.
+  rewrite Z.mod_small by lia.
+  replace 64%nat with ((63 - nbn) + S nbn)%nat by lia.
+  rewrite forest_from_skip by (rewrite tleafs_pow, Nat2Z.inj_succ, <- Z.add_1_r; lia).
+  rewrite heights_from_forest. reflexivity.
+Qed.
+
+(* ================================================================== node_indices_added_by_append *)
+Fixpoint upfrom (t : nat) (x : Z) : list Z :=
+  match t with O => [] | S t' => (x + 1) :: upfrom t' (x + 1) end.
+
+Lemma upfrom_snoc t : forall x, upfrom (S t) x = upfrom t x ++ [x + Z.of_nat (S t)].
+Proof.
+  induction t as [|t IH]; intros x; [cbn; f_equal; lia|].
+  change (upfrom (S (S t)) x) with ((x + 1) :: upfrom (S t) (x + 1)). rewrite IH.
+  cbn [upfrom app]. f_equal. f_equal. f_equal. lia.
+Qed.
+
+Lemma right_spine_upfrom h : forall o,
+  right_spine h o = (o + tsize h - Z.of_nat h) :: upfrom h (o + tsize h - Z.of_nat h).
+Proof.
+  induction h as [|h IH]; intros o.
+  - cbn [right_spine upfrom]. change (tsize 0) with 1. f_equal. lia.
+  - cbn [right_spine]. rewrite IH. rewrite upfrom_snoc. rewrite tsize_S.
+    replace (o + (2 * tsize h + 1) - Z.of_nat (S h)) with (o + tsize h + tsize h - Z.of_nat h) by lia.
+    cbn [app]. f_equal. f_equal. f_equal. lia.
+Qed.
+
+Lemma added_loop_upfrom t : forall fuel x, (t < fuel)%nat -> 0 <= x -> x + Z.of_nat t < 2 ^ 64 -> Z.of_nat t < 2 ^ 32 ->
+  added_loop fuel x (Z.of_nat t) = Some (upfrom t x).
+Proof.
+  induction t as [|t IH]; intros fuel x Hf Hx Hb H32.
+  - destruct fuel as [|f]; [lia|]. reflexivity.
+  - destruct fuel as [|f]; [lia|]. cbn [added_loop].
+    destruct (Z.eqb_spec (Z.of_nat (S t)) 0); [lia|].
+    unfold add_ok, sub_ok. destruct (Z.ltb_spec (x + 1) (2 ^ 64)); [|lia].
+    destruct (Z.leb_spec 1 (Z.of_nat (S t))); [|lia].
+    rewrite wadd64_small by lia. rewrite wsub32_small by lia.
+    replace (Z.of_nat (S t) - 1) with (Z.of_nat t) by lia.
+    rewrite IH by lia. reflexivity.
+Qed.
+
+(* the last tree of a non-empty forest *)
+Lemma last_tree k : forall m o l, 0 < m < tleafs k ->
+  exists pre (h : nat) a q, forest_from k m o l = pre ++ [PTree h (o + ncount a) (l + a)] /\
+    0 <= q /\ a = q * (2 * tleafs h) /\ a + tleafs h = m.
+Proof.
+  induction k as [|k IH]; intros m o l Hm.
+  - change (tleafs 0) with 1 in Hm. lia.
+  - cbn [forest_from]. rewrite tleafs_S in Hm. pose proof (tleafs_pos k) as Hk.
+    destruct (Z.leb_spec (tleafs k) m) as [Hb|Hb].
+    + destruct (Z.eq_dec m (tleafs k)) as [->|Hne].
+      * rewrite Z.sub_diag, forest_from_zero. exists [], k, 0, 0. rewrite ncount_0, !Z.add_0_r.
+        split; [reflexivity|lia].
+      * destruct (IH (m - tleafs k) (o + tsize k) (l + tleafs k) ltac:(lia)) as (pre & h & a & q & E & Hq & Ea & Em).
+        assert (Hhk : (h < k)%nat).
+        { destruct (le_lt_dec k h) as [L|]; [|assumption]. pose proof (tleafs_mono k h L). pose proof (tleafs_pos h). nia. }
+        exists (PTree k o l :: pre), h, (tleafs k + a), (tleafs (k - S h) + q).
+        assert (Ha : 0 <= a < tleafs k) by (pose proof (tleafs_pos h); nia).
+        assert (N : ncount (tleafs k + a) = tsize k + ncount a).
+        { rewrite (ncount_split k) by lia. f_equal. f_equal. lia. }
+        rewrite E, N. split; [cbn [app]; do 3 f_equal; [lia|lia]|].
+        split; [pose proof (tleafs_pos (k - S h)); lia|].
+        split; [rewrite (tleafs_mult h k) by lia; lia|lia].
+    + destruct (IH m o l ltac:(lia)) as (pre & h & a & q & E & R). exists pre, h, a, q. split; [exact E|exact R].
+Qed.
+
+Theorem added_by_append_correct n : 0 <= n < 2 ^ 63 ->
+  mm_node_indices_added_by_append n = Some (spec_added_by_append n).
+Proof.
+  intros Hn. unfold mm_node_indices_added_by_append, mm_leaf_index_to_node_index.
+  destruct (leaf_index_to_node_index_val n Hn) as [Ok V]. rewrite Ok. unfold chk.
+  assert (Hc : ncount (n + 1) < 2 ^ 64).
+  { unfold ncount. pose proof (count_ones_pos (n + 1) ltac:(lia)). pow_lits. lia. }
+  destruct (leaf_node_located (n + 1) n ltac:(lia) ltac:(pow_lits; lia) Hc ltac:(lia))
+    as (pk & t & ni & E & H0 & Hfl & OkR & R & D).
+  destruct (rll_from_node_index_desc (leaf_index_to_node_index n)) as (a' & b' & c' & D' & RN).
+  { rewrite V. fold (ncount n). pose proof (ncount_nonneg n ltac:(lia)). pose proof (ncount_lt64 n Hn). lia. }
+  rewrite D in D'. injection D' as <- <- <-. rewrite RN. rewrite R.
+  (* the last tree of forest (n+1) *)
+  unfold spec_added_by_append, forest.
+  destruct (last_tree 64 (n + 1) 0 0 ltac:(rewrite tleafs_64; pow_lits; lia)) as (pre & h & a & q & F & Hq & Ea & Em).
+  rewrite F. rewrite rev_unit. cbn [pt_height pt_offset]. rewrite Z.add_0_l.
+  pose proof (tleafs_pos h) as Hp.
+  assert (Hh63 : (h <= 63)%nat).
+  { destruct (le_lt_dec h 63) as [|L]; [assumption|]. pose proof (tleafs_mono 64 h ltac:(lia)). rewrite tleafs_64 in *. pow_lits. nia. }
+  (* n ends in exactly h ones *)
+  assert (Emod : n mod 2 ^ (Z.of_nat h + 1) = 2 ^ Z.of_nat h - 1).
+  { rewrite <- tleafs_S, tleafs_pow in Ea. rewrite Nat2Z.inj_succ, <- Z.add_1_r in Ea.
+    rewrite tleafs_pow in *. replace n with (q * 2 ^ (Z.of_nat h + 1) + (2 ^ Z.of_nat h - 1)) at 1 by lia.
+    apply mod_mul_add. rewrite pow2_succ by lia. lia. }
+  destruct (right_lineage_length_from_leaf_index_char h n Hh63 ltac:(pow_lits; lia) Emod) as [_ ->].
+  (* node index of leaf n *)
+  assert (X : leaf_index_to_node_index n = ncount a + tsize h - Z.of_nat h).
+  { rewrite V. fold (ncount n). rewrite (ncount_tree_split h q n a Hq Ea ltac:(lia)).
+    replace (n - a) with (tleafs h - 1) by lia. unfold ncount at 2. rewrite tleafs_pow, count_ones_ones.
+    rewrite tsize_tleafs, tleafs_pow. lia. }
+  pose proof (ncount_nonneg a ltac:(nia)) as Hna. pose proof (tsize_ge_height h) as Hge.
+  assert (Hroot : ncount a + tsize h < 2 ^ 64).
+  { replace (ncount a + tsize h) with (ncount (n + 1)); [exact Hc|].
+    replace (n + 1) with (a + tleafs h) by lia.
+    assert (a = 0 \/ tleafs h <= a) as [->|Hge2] by nia.
+    - rewrite Z.add_0_l, ncount_0, ncount_tleafs. lia.
+    - unfold ncount. rewrite tsize_tleafs.
+      assert (C : count_ones (a + tleafs h) = count_ones a + 1).
+      { rewrite Ea. rewrite <- tleafs_S. rewrite !tleafs_pow.
+        assert (2 ^ Z.of_nat h < 2 ^ Z.of_nat (S h)) by (apply pow2_lt; lia).
+        pose proof (pow2_pos (Z.of_nat h) ltac:(lia)).
+        rewrite count_ones_add_high by lia. rewrite count_ones_mul_pow2 by lia. rewrite count_ones_pow2. reflexivity. }
+      rewrite C. lia. }
+  rewrite added_loop_upfrom by (rewrite ?X; pow_lits; lia).
+  rewrite right_spine_upfrom. rewrite X. reflexivity.
+Qed.
